@@ -33,14 +33,18 @@ package jsonapi
 
 //@ spec attrsWf(m map[string]Attr) = forall k string :: k in m ==> m[k].Name == k && k != "" && validKind(m[k].Type)
 //@ spec relsWf(m map[string]Rel) = forall k string :: k in m ==> m[k].FromName == k && k != "" && m[k].ToType != ""
-//@ spec typeWf(t Type) = t.Name != "" && attrsWf(t.Attrs) && relsWf(t.Rels)
+// JSON:API fields share one namespace: no name is both an attribute and a relationship.
+//@ spec fieldsDisjoint(t Type) = forall k string :: !(k in t.Attrs && k in t.Rels)
+//@ spec typeWf(t Type) = t.Name != "" && attrsWf(t.Attrs) && relsWf(t.Rels) && fieldsDisjoint(t)
 
 //@ func Type.AddAttr
 //@ props C14 C19
 //@ requires nonnil: t != nil
 //@ requires wf: attrsWf(t.Attrs)
+//@ requires disjoint: fieldsDisjoint(*t)
+//@ ensures disjoint: fieldsDisjoint(*t)
 //@ modifies obj[Type](t), map[map[string]Attr](t.Attrs), new[map[string]Attr]
-//@ ensures accept: (result == nil) == (attr.Name != "" && validKind(attr.Type) && !(attr.Name in old(mapdom(t.Attrs))))
+//@ ensures accept: (result == nil) == (attr.Name != "" && validKind(attr.Type) && !(attr.Name in old(mapdom(t.Attrs))) && !(attr.Name in old(mapdom(t.Rels))))
 //@ ensures unchanged-on-error: result != nil ==> *t == old(*t) && sameMap(t.Attrs)
 //@ ensures added: result == nil ==> attr.Name in t.Attrs && t.Attrs[attr.Name] == attr
 //@ ensures others: result == nil ==> (forall k string :: k != attr.Name ==> (k in t.Attrs) == (k in old(mapdom(t.Attrs))) && (k in t.Attrs ==> t.Attrs[k] == old(mapval(t.Attrs))[k]))
@@ -68,8 +72,10 @@ package jsonapi
 //@ props C14 C19
 //@ requires nonnil: t != nil
 //@ requires wf: relsWf(t.Rels)
+//@ requires disjoint: fieldsDisjoint(*t)
+//@ ensures disjoint: fieldsDisjoint(*t)
 //@ modifies obj[Type](t), map[map[string]Rel](t.Rels), new[map[string]Rel]
-//@ ensures accept: (result == nil) == (rel.FromName != "" && rel.ToType != "" && !(rel.FromName in old(mapdom(t.Rels))))
+//@ ensures accept: (result == nil) == (rel.FromName != "" && rel.ToType != "" && !(rel.FromName in old(mapdom(t.Rels))) && !(rel.FromName in old(mapdom(t.Attrs))))
 //@ ensures unchanged-on-error: result != nil ==> *t == old(*t) && sameMap(t.Rels)
 //@ ensures added: result == nil ==> rel.FromName in t.Rels && t.Rels[rel.FromName] == rel
 //@ ensures others: result == nil ==> (forall k string :: k != rel.FromName ==> (k in t.Rels) == (k in old(mapdom(t.Rels))) && (k in t.Rels ==> t.Rels[k] == old(mapval(t.Rels))[k]))
@@ -82,7 +88,7 @@ package jsonapi
 //@ props C14 C19
 //@ requires nonnil: t != nil
 //@ requires wf: relsWf(t.Rels)
-//@ ensures accept: (result == nil) == (rel.FromName != "" && rel.ToType != "" && !(rel.FromName in t.Rels))
+//@ ensures accept: (result == nil) == (rel.FromName != "" && rel.ToType != "" && !(rel.FromName in t.Rels) && !(rel.FromName in t.Attrs))
 //@ loop 0 invariant none-so-far: forall k string :: visited(k) ==> t.Rels[k].FromName != rel.FromName
 
 //@ func Type.RemoveRel
